@@ -65,7 +65,10 @@ def _case(draw: Any, args: dict) -> dict:
         inits.setdefault(pk, []).append(["from", "._shared", shared_cls, None])
         inits.setdefault(pk, []).append(["from", "._shared", shared_fn, None])
     pkg = gt.package(pk, mods, inits)
-    return {"pkg": pkg, "options": {"nc": draw(st.booleans()), "docstyle": draw(st.sampled_from(["PLAINTEXT", "NUMPYDOC"]))}, "perm_seeds": draw(st.lists(st.integers(1, 10**6), min_size=2, max_size=2, unique=True)), "hash_seeds": draw(st.lists(st.integers(1, 4000), min_size=2, max_size=2, unique=True)), "tie": tie}
+    # what -s points at: the package, its parent directory, or a directory that holds package roots at different depths in
+    # different branches (the tool analyses the nearest one)
+    layout = draw(st.sampled_from(["package", "package", "parent", "multi_root"]))
+    return {"pkg": pkg, "layout": layout, "options": {"nc": draw(st.booleans()), "docstyle": draw(st.sampled_from(["PLAINTEXT", "NUMPYDOC"]))}, "perm_seeds": draw(st.lists(st.integers(1, 10**6), min_size=2, max_size=2, unique=True)), "hash_seeds": draw(st.lists(st.integers(1, 4000), min_size=2, max_size=2, unique=True)), "tie": tie}
 
 
 def strategy(args: dict) -> st.SearchStrategy:
@@ -77,6 +80,15 @@ def digest(r: dict) -> dict[str, str]:
     for rel, txt in {**r["stubs"], **{k: v for k, v in r["others"].items() if k.endswith("__api.json")}}.items():
         out[rel] = hashlib.sha256(txt.encode("utf-8", "replace")).hexdigest()[:16]
     return out
+
+
+DECOYS = {
+    "zeta/vendor/inner/__init__.py": "",
+    "zeta/vendor/inner/util.py": "def decoy_fn(a: int) -> int:\n    return a\n",
+    "aaa/x/y/other/__init__.py": "",
+    "aaa/x/y/other/m.py": "class Decoy:\n    v: int\n",
+    "mmm/notes.txt": "no package here\n",
+}
 
 
 class _PermutedScandir:
@@ -132,7 +144,14 @@ def judge(case: dict) -> dict:
     gt.check_compiles(files)
     opts = case["options"]
     src = pkg["name"]
-    res: dict[str, Any] = {"discs": [], "nontrivial": [], "evals": 0, "stats": [], "sample": None}
+    layout = case.get("layout", "package")
+    if layout == "parent":
+        src = ""
+    elif layout == "multi_root":
+        src = ""
+        files = {f"lib/{k}": v for k, v in files.items()}
+        files.update(DECOYS)
+    res: dict[str, Any] = {"discs": [], "nontrivial": [], "evals": 0, "stats": [f"layout:{layout}"], "sample": None}
     tags = ["reexp:equal_depth"] if case.get("tie") else []
     base = run_cli(files, opts, src=src, hashseed="0")
     res["evals"] += 1
